@@ -31,6 +31,7 @@ import SwcVerif.Model.AlgoRunCut
 import SwcVerif.Model.AlgoRunRepair
 import SwcVerif.Model.AlgoRunAsc
 import SwcVerif.Model.Assemble
+import SwcVerif.Model.AlgoRunBranchTree
 
 def dispatch (op : String) (args : List String) : String :=
   match op with
@@ -82,6 +83,8 @@ def dispatch (op : String) (args : List String) : String :=
   | "gasc" => AlgoRun.handleAsc args
   | "asm" => Asm.handle args
   | "gasm" => AlgoRun.handleAsm args
+  | "brtree" => Branches.handleBranchTree args
+  | "gbrtable" => AlgoRun.handleBranchTree args
   | "swcline" => SwcText.handleLine args
   | "swcread" => SwcText.handleRead args
   | "swcwrite" => SwcText.handleWrite args
